@@ -253,6 +253,10 @@ func (f *frame) facts(x string, t types.Type, st *State) string {
 			e.declFun("ptrtype", []string{"Int"}, "Bool")
 			base = and(base, "(=> (and (not (= (ityp "+x+") 0)) (ptrtype (ityp "+x+"))) (not (= (ival "+x+") 0)))")
 		}
+		if _, named := t.(*types.Named); named && t.Underlying().(*types.Interface).NumMethods() > 0 && !strings.Contains(x, "!q") {
+			// the type system guarantees: a value of interface type I is nil or its dynamic type implements I
+			base = and(base, "(or (= (ityp "+x+") 0) "+f.hasType(x, t)+")")
+		}
 		return base
 	case *types.Slice:
 		w := f.wTerm(st)
